@@ -326,6 +326,10 @@ func (p *poller) readWriteLoop() {
 							c.mux.Lock()
 							if len(c.writeList) == 0 {
 								c.resetRead()
+							} else if isOneshot && !c.closed {
+								// the one-shot event that reported the connect has
+								// been consumed: re-arm it for the backlog.
+								_ = p.modWrite(fd)
 							}
 							c.mux.Unlock()
 						}
